@@ -68,12 +68,13 @@ add("C04",
     "and counted; the documented not-PD error is accepted for multivariate Gaussian scorers.",
     "DESIGN.md section 4, C04")
 add("C13",
-    "exhaustive enumeration of the integer box [-2,n+2]^k for 17 scorers + Hypothesis-generated malformed arrays; validity predicate and definitional values",
+    "exhaustive enumeration of the integer box [-2,n+2]^k for 17 scorers + Hypothesis-generated malformed arrays + coverage-guided fuzzing (atheris/libFuzzer) of the cuts argument; validity predicate and definitional values",
     "Every integer tuple of the box (k=2,3,4; n 4..6, thorough up to 8; p 1..2) for 17 scorers is passed to evaluate as int64 and, "
     "where non-negative, also as uint64/uint8/int32: invalid tuples must raise ValueError (not IndexError, not a value), valid "
     "ones must be accepted and equal the definitional value in every dtype; plus generated float/bool/wrong-width/0-row/3-D/"
     "list/row-vector/flat-multiple arguments, mixed batches, descending unsigned rows, rows overflowing narrow signed dtypes "
-    "and pandas containers. The box facet is exhaustive.",
+    "and pandas containers; and a coverage-guided fuzzing campaign (atheris, 120k executions quick / 6.4M thorough) over a "
+    "structured decoder of container x dtype x shape x values with the same oracle inside the target. The box facet is exhaustive.",
     "Trusted: the validity predicate written from the property and the documented minimum sizes (1, 2, p+1); fixed "
     "well-conditioned data per (n,p).",
     "DESIGN.md section 4, C13")
@@ -229,6 +230,11 @@ def main():
             "path": "vp_check.py",
             "serves_properties": [c["property_id"] for c in checks],
             "kind_free_text": "Hypothesis 6.168 property-based testing (strategies, shrinking, rule-based state machines) plus exhaustive enumeration of finite grids, sharded over a 16-process pool; explicit reference-model / metamorphic / differential oracles",
+        }, {
+            "name": "atheris-fuzz",
+            "path": "fuzz/fuzz_cuts.py",
+            "serves_properties": ["C13"],
+            "kind_free_text": "atheris 3.1 (libFuzzer) coverage-guided fuzzing of evaluate's cuts argument through a structured decoder, semantic oracle inside the target; run as one facet of the C13 check (installed by setup.sh into .deps from the offline wheelhouse)",
         }],
         "checks": checks,
         "notes": "All checks: ./vp_check.py <ID> --tier quick|thorough; VERIF_SEED selects the Hypothesis seeds; exit 0/1/2 = held / VIOLATION / harness problem. Known findings: KNOWN_FINDINGS.json. Regression replays under replays/regressions are executed first in every run.",
